@@ -17,7 +17,7 @@ DEFECTS = ["end_not_after_start", "step_not_dividing", "infectious_unknown", "in
            "output_comp_unknown", "adjusted_flow_unknown", "adj_filter_unknown_strat", "adj_filter_unknown_stratum", "agg_source_unknown",
            "cum_source_unknown", "func_source_unknown", "flow_output_unknown", "flow_adj_omits", "inf_adj_omits", "split_omits", "split_negative", "split_sum",
            "second_birth", "second_age", "second_strain", "dup_strat", "dup_udeath", "dup_output", "mixing_partial", "age_partial",
-           "mixing_strain", "unequal_src_dst", "expected_count", "bad_rate", "finalized", "source_is_rejected_request", "output_comp_not_in_strat", "flow_both_ends_unknown", "step_not_dividing_large_grid"]
+           "mixing_strain", "unequal_src_dst", "expected_count", "bad_rate", "finalized", "source_is_rejected_request", "output_comp_not_in_strat", "flow_both_ends_unknown", "step_not_dividing_large_grid", "adjusted_flow_matched_nothing"]
 
 WHERE = ["src", "dst", "src+valid_dst", "dst+valid_src"]
 
@@ -29,6 +29,8 @@ def payloads(tier, seed):
     extra = 24 if tier == "quick" else 400
     for j in range(extra):
         out.append({"seed": seed, "index": n + j, "defect": ["adj_filter_unknown_stratum", "adj_filter_unknown_strat"][j % 2], "where": WHERE[(j // 2) % 4]})
+    for j in range(12 if tier == "quick" else 200):
+        out.append({"seed": seed, "index": n + extra + j, "defect": "adjusted_flow_matched_nothing"})
     return out
 
 FINAL_OPS = [
@@ -107,6 +109,17 @@ def inject(r, prog, defect, where=None):
         i = r.choice(strat_idx)
         st = sorted(ops[i]["strata"], key=int) if ops[i]["kind"] == "age" else ops[i]["strata"]
         ops[i].setdefault("flow_adj", []).append({"flow": "no_such_flow", "adjs": [[s, ["mul", {"c": "2"}]] for s in st]}); return ops, i
+    if defect == "adjusted_flow_matched_nothing":
+        # a flow-adding call whose filter matches no compartment creates no flow (legal); an adjustment for that NAME in a later stratification
+        # therefore refers to a flow that is not present
+        cands = [(i1, i2) for i1 in strat_idx for i2 in strat_idx if i1 < i2 and ops[i1]["kind"] != "age" and any(n not in ops[i1]["comps"] for n in names)]
+        if not cands: return None
+        i1, i2 = r.choice(cands)
+        c = r.choice([n for n in names if n not in ops[i1]["comps"]])
+        ops.insert(i1 + 1, {"op": "flow", "kind": "death", "name": "ghost", "param": {"c": "1/8"}, "src": c, "src_strata": [[ops[i1]["name"], ops[i1]["strata"][0]]]})
+        i2 += 1
+        st = sorted(ops[i2]["strata"], key=int) if ops[i2]["kind"] == "age" else ops[i2]["strata"]
+        ops[i2].setdefault("flow_adj", []).append({"flow": "ghost", "adjs": [[s_, ["mul", {"c": "2"}]] for s_ in st]}); return ops, i2
     if defect in ("adj_filter_unknown_strat", "adj_filter_unknown_stratum"):
         cands = [i for i in strat_idx if any(ops[j]["op"] == "flow" for j in range(i))]
         if not cands: return None
